@@ -2,6 +2,7 @@
    Statements only; proofs are in Proofs/Bounds.v. *)
 From Hub Require Import Base.Prelude Base.Arith Model.Types Model.Keeper Model.Handlers Model.Hooks Model.Step.
 From Hub Require Import Proofs.Tactics Proofs.Frames Proofs.Money Proofs.KeysInv Proofs.Bounds.
+From Hub Require Import Gen.Wiring Proofs.WiringThm.
 
 (* The invariant: for each of the four bound vectors, either it was modified in this block
    (flag of the x/params transient store) or every node is within it.  It holds at genesis
@@ -76,6 +77,14 @@ Example C11_sweep_clamps :
   amount_of (swept true false ({[ 1%N := 50 ]} : coins) ({[ 1%N := 10 ]} : coins) ∅) 1%N = 10.
 Proof. vm_compute. reflexivity. Qed.
 
+Section wiring.
+Local Open Scope string_scope.
+(* app wiring (regenerated from app/module.go on every run): governance enacts parameter changes BEFORE the marketplace
+   end-blocker of the same block, so the sweep of that very block sees the Modified flags ([OGov] before [OEnd]) *)
+Theorem C11_governance_runs_before_the_sweep : runs_before "govtypes.ModuleName" "vpntypes.ModuleName" end_blockers.
+Proof. exact gov_before_vpn_at_block_end. Qed.
+End wiring.
+
 Print Assumptions C11_invariant_inductive.
 Print Assumptions C11_genesis.
 Print Assumptions C11_every_reachable_state.
@@ -83,3 +92,4 @@ Print Assumptions C11_prices_within_bounds_at_block_end.
 Print Assumptions C11_register_checked.
 Print Assumptions C11_update_checked.
 Print Assumptions C11_quantity_checked.
+Print Assumptions C11_governance_runs_before_the_sweep.
